@@ -219,6 +219,8 @@ def finish(ctx, level, coverage, assumptions):
     if new:
         rc = 1
         rdir = os.path.join(VERIF, "replays", ctx.pid)
+        if REPO != "/repo":
+            rdir = os.path.join(VERIF, "replays", "scratch", ctx.pid)
         os.makedirs(rdir, exist_ok=True)
         replay = os.path.join(rdir, "%s-seed%d.json" % (ctx.tier, ctx.seed))
         json.dump(dict(property=ctx.pid, tier=ctx.tier, seed=ctx.seed, violations=new[:50]),
@@ -239,6 +241,8 @@ def finish(ctx, level, coverage, assumptions):
               wall_s=round(time.time() - ctx.t0, 2), violations=len(new),
               known_findings_hit=sorted(hits.keys()))
     evdir = os.path.join(VERIF, "evidence", "extra") if extra else os.path.join(VERIF, "evidence")
+    if os.environ.get("VERIF_NOEVIDENCE"):   # development-time runs against a scratch copy (bin/seedrun2)
+        evdir = ctx.tmp
     os.makedirs(evdir, exist_ok=True)
     with open(os.path.join(evdir, ctx.pid + ".json"), "w") as f:
         json.dump(ev, f, indent=1, default=str)
